@@ -195,7 +195,12 @@ func runCut(e *Env, prop string) {
 	}
 	for _, a := range e.K.Actors() {
 		if a.Lib && !a.Done() {
-			e.Violate(prop, "goroutine-leak", fmt.Sprintf("library goroutine started at %s is still %s (%s) after the subscription closed", a.Site, a.State(), a.PendingKind()))
+			clause := "goroutine-leak"
+			if a.PendingKind().String() == "lock" {
+				// parked on a mutex at quiescence: nobody is left to release it
+				clause = "goroutine-deadlocked-on-lock"
+			}
+			e.Violate(prop, clause, fmt.Sprintf("library goroutine started at %s is still %s (%s) after the subscription closed", a.Site, a.State(), a.PendingKind()))
 		}
 	}
 	for _, s := range srcs {
